@@ -1,10 +1,10 @@
 /-
 C07 — machine-checked witnesses: what goes wrong outside the guards of the positive theorems.
 
-Finding C07a: `BufferPool::take(id)` / `BufferPool::reset(id)` are safe public functions that only look
+Observation C07a (outside the programs C07 quantifies over): `BufferPool::take(id)` / `BufferPool::reset(id)` are safe public functions that only look
 at the slot table. Called with an id that no completion reported, they hand out (or re-queue) a buffer the
 pool / the kernel still owns. Each witness below is a concrete program executed by the same `run` / `step`
-the driver uses (and replayed on the real code by the harness, cases `raw-*`).
+the driver uses (reproducible on the real code with `./check C07 --replay`, see notes/C07.md).
 -/
 import Compio.Props.C07
 
